@@ -381,17 +381,20 @@ struct CJob {
                         if (d.k == k && std::find(en.begin(), en.end(), d.t) != en.end()) pick = d.t;
                     if (pick < 0) {
                         bool curEnabled = cur >= 0 && std::find(en.begin(), en.end(), cur) != en.end();
+                        bool spinning = false;
                         if (curEnabled && coop.lastPt[cur] == lastPt) {
-                            if (++samePt > 40 && en.size() > 1) curEnabled = false, samePt = 0;
+                            if (++samePt > 40 && en.size() > 1) curEnabled = false, spinning = true, samePt = 0;
                         } else
                             samePt = 0;
                         if (curEnabled) {
                             lastPt = coop.lastPt[cur];
                             pick = cur;
                         } else {
+                            // cur has finished: the lowest enabled thread.  cur is spinning on a lock: the next enabled thread
+                            // after it, cyclically, so that the lock holder gets its turn whichever thread it is
                             pick = en[0];
                             for (int e : en)
-                                if (e != cur) {
+                                if (spinning ? e > cur : e != cur) {
                                     pick = e;
                                     break;
                                 }
